@@ -44,6 +44,7 @@ fn main() {
     let only = arg(&args, "--only");
     if let Some(c) = arg(&args, "--crash-file") {
         vrt::crash::install(&c);
+        vrt::crash::start_watchdog(20);
     }
     let parts = std::panic::catch_unwind(std::panic::AssertUnwindSafe(|| run_part(&part, &tier, only.as_deref())));
     let parts = match parts {
